@@ -490,6 +490,32 @@ func genClient(repo, out string) error {
 				case *ast.GoStmt:
 					out = append(out, "go")
 					return false
+				case *ast.SelectStmt:
+					// a receive that is one alternative of a select is not a wait for that channel:
+					// its label says so ("select-recv"); the clause bodies are walked as usual
+					for _, cl := range x.Body.List {
+						cc := cl.(*ast.CommClause)
+						switch comm := cc.Comm.(type) {
+						case nil:
+							out = append(out, "select-default")
+						case *ast.SendStmt:
+							out = append(out, "send "+exprText(fset, comm.Chan))
+						case *ast.ExprStmt:
+							if u, ok := comm.X.(*ast.UnaryExpr); ok && u.Op == token.ARROW {
+								out = append(out, "select-recv "+exprText(fset, u.X))
+							}
+						case *ast.AssignStmt:
+							if len(comm.Rhs) == 1 {
+								if u, ok := comm.Rhs[0].(*ast.UnaryExpr); ok && u.Op == token.ARROW {
+									out = append(out, "select-recv "+exprText(fset, u.X))
+								}
+							}
+						}
+						for _, st := range cc.Body {
+							walk(st)
+						}
+					}
+					return false
 				case *ast.SendStmt:
 					out = append(out, "send "+exprText(fset, x.Chan))
 				case *ast.CallExpr:
